@@ -35,9 +35,13 @@ def family(prop, tier, exe, wd):
     empty = [F.job("empty", [])]
     if prop in ("C01", "C02", "C19", "C05"):
         small = F.small_family("all", F.anyl, sz["per_pair"], sz["n_triples"], sd, sz["extra_pairs"], sz["extra_triples"])
+        if not thorough and prop in ("C02", "C05"):
+            # the clauses of these two are the most expensive on the 346-mapping built-in: one sub-alphabet per built-in in the quick tier
+            big = [j for j in big if not (j["id"].startswith("builtin-") and not j["id"].endswith("-0"))]
         jobs = big + empty + small
         if prop == "C05":
-            jobs += F.dist_family("dist", 1 if not thorough else 3, 40 if not thorough else 400, sd, 0 if not thorough else 200)
+            d = F.dist_family("dist", 1 if not thorough else 3, 40 if not thorough else 400, sd, 0 if not thorough else 200)
+            jobs += d if thorough else [j for i, j in enumerate(d) if i % 3 == 0]
     elif prop in ("C03", "C04"):
         small = F.small_family("nonabs", F.no_abs, sz["per_pair"] // 2 or 1, sz["n_triples"] // 2, sd, sz["extra_pairs"] // 2, sz["extra_triples"] // 2)
         dist = F.dist_family("dist", 1 if not thorough else 6, 80 if not thorough else 1200, sd, 0 if not thorough else 600)
@@ -201,6 +205,119 @@ def run_model(res, wd, shards, props, known, tags, prop, replay_path="", module=
     return tot_gen, tot_dist, counters
 
 
+def deep_walks(res, exe, wd, prop, tier):
+    """Long random histories of the real mapper beyond the bounds of the tables (full alphabets of the built-ins, 5-6 keys held),
+    validated by TLC as traces (spec/MapperTrace.tla)."""
+    thorough = tier == "thorough"
+    builtins = [json.loads(l) for l in run_tmv(exe, ["builtins"]).splitlines() if l.strip()]
+    jobs = []
+    sd = seed() if thorough else 0
+    for b in builtins:
+        for k in range(2 if not thorough else 8):
+            jobs.append({"id": "walk-%s-%d" % (b["name"], k), "fancy": b["json"], "keys": "auto", "maxheld": 4 + k % 3, "steps": 1200 if not thorough else 6000, "seed": 1000 * sd + 17 * k + len(b["name"])})
+    for i, v in enumerate(F.readme_layouts()):
+        jobs.append({"id": "walk-readme-%d" % i, "fancy": v, "keys": "auto", "maxheld": 4, "steps": 400 if not thorough else 2000, "seed": 1000 * sd + i})
+    pred = {"C03": F.no_abs, "C04": F.no_abs, "C07": F.has_norep, "C09": F.has_special, "C08": F.has_abs}.get(prop, F.anyl)
+    small = F.small_family("walk", pred, 1, 40 if not thorough else 400, None, 0, 0, ones=False)
+    for i, j in enumerate(small[:140 if not thorough else 1500]):
+        jobs.append(dict(j, id="walk-" + j["id"], maxheld=5 + i % 2, steps=300 if not thorough else 1000, seed=1000 * sd + i))
+    if prop in ("C03", "C04"):
+        for i, j in enumerate(F.dist_family("dist", 1, 40)[::4]):
+            jobs.append(dict(j, id="walk-" + j["id"], maxheld=5, steps=300 if not thorough else 1000, seed=1000 * sd + i))
+    nchunks = PROCS
+    t0 = time.time()
+    traces = []
+    for i in range(nchunks):
+        part = jobs[i::nchunks]
+        if not part:
+            continue
+        jp = os.path.join(wd, "walkjobs_%d.json" % i)
+        json.dump({"jobs": part}, open(jp, "w"))
+        tp = os.path.join(wd, "walk_%d.ndjson" % i)
+        run_tmv(exe, ["walk", jp], stdout_path=tp)
+        traces.append(tp)
+    props = [prop] + (["RA"] if prop in WITH_RA else [])
+    with open(os.path.join(wd, "MT.tla"), "w") as f:
+        f.write("---- MODULE MT ----\nEXTENDS MapperTrace\nMCProps == %s\nMCKnown == %s\n====\n" % (tla_set(props), tla_set(known_ids(prop))))
+    with open(os.path.join(wd, "MT.cfg"), "w") as f:
+        f.write("SPECIFICATION Spec\nCONSTANTS\n  Props <- MCProps\n  KnownIds <- MCKnown\nPOSTCONDITION Accepted\nCHECK_DEADLOCK FALSE\n")
+    runs = [TlcRun(wd, "MT.tla", "MT.cfg", env={"TRACE": t}, name="mt%d" % i, deque=True, mem="4g", timeout=3000) for i, t in enumerate(traces)]
+    run_tlc_many(runs)
+    regs = [0] * 5
+    nbad = 0
+    for r, tp in zip(runs, traces):
+        err = r.other_error()
+        if err:
+            res.tool_errors.append("%s: %s" % (r.name, err))
+            continue
+        acc = r.printed("ACCEPTED")
+        if not acc:
+            res.tool_errors.append("%s: no acceptance line" % r.name)
+            continue
+        v = parse_tla_value(acc[0])
+        if v[1] != v[2]:
+            res.tool_errors.append("%s: walk trace not consumed: %d of %d lines" % (r.name, v[1], v[2]))
+        for i, x in enumerate(v[3]):
+            regs[i] += x
+        for line in r.printed("KNOWN"):
+            pv = parse_tla_value(line)
+            for cid in pv[2]:
+                k = known_entry_for(cid)
+                res.known_hit(k["id"] if k else cid, "%s in %s" % (cid, pv[1]))
+        for line in r.printed("DRIFT"):
+            res.drift.append(line[:900])
+        for line in r.printed("BAD"):
+            pv = parse_tla_value(line)
+            wid, clauses, at = pv[1], sorted(pv[2]), pv[3]
+            # the history up to the first offending step
+            rows = read_ndjson(tp)
+            start = max(i for i, row in enumerate(rows[:at]) if row.get("c") == "reset")
+            hist = [row["e"] for row in rows[start + 1:at]]
+            nbad += 1
+            if nbad <= 5:
+                res.violation(",".join(clauses), {"engine": "E1-mapper-walk", "walk_id": wid, "layout": rows[start]["layout"], "keys": rows[start]["keys"], "history": hist,
+                                                   "observed": [{"in": row["e"], "out": row["ev"], "rep": row["rep"]} for row in rows[max(start + 1, at - 8):at]],
+                                                   "how": "bin/check %s --replay <this file> lets the real mapper follow exactly this history again and TLC judge it" % prop})
+            else:
+                res.more_violations += 1
+    log("[walks] %d random walks of the real mapper, %d steps judged by TLC, %d with a mapping fired, %d drifts, %.1fs" % (regs[0], regs[1], regs[3], regs[2], time.time() - t0))
+    return {"deep_walks": regs[0], "deep_walk_steps_validated": regs[1], "deep_walk_steps_with_a_mapping_fired": regs[3], "deep_walk_release_all_steps": regs[4], "deep_walk_drifts": regs[2],
+            "deep_walk_bounds": "random histories over every key the layout mentions (+2 foreign), 4-6 keys held, 7% ill-formed events, 1% release_all"}
+
+
+def replay_walk(prop, path):
+    rp = json.load(open(path))
+    try:
+        exe = build_harness()
+        wd = workdir("%s-replay" % prop)
+        jp = os.path.join(wd, "walkjobs.json")
+        json.dump({"jobs": [{"id": "replay", "layout": rp["layout"], "keys": rp["keys"], "maxheld": 9, "history": rp["history"]}]}, open(jp, "w"))
+        tp = os.path.join(wd, "walk.ndjson")
+        run_tmv(exe, ["walk", jp], stdout_path=tp)
+        props = [prop] + (["RA"] if prop in WITH_RA or any(e["t"] == "RA" for e in rp["history"]) else [])
+        with open(os.path.join(wd, "MT.tla"), "w") as f:
+            f.write("---- MODULE MT ----\nEXTENDS MapperTrace\nMCProps == %s\nMCKnown == %s\n====\n" % (tla_set(props), tla_set(known_ids(prop))))
+        with open(os.path.join(wd, "MT.cfg"), "w") as f:
+            f.write("SPECIFICATION Spec\nCONSTANTS\n  Props <- MCProps\n  KnownIds <- MCKnown\nPOSTCONDITION Accepted\nCHECK_DEADLOCK FALSE\n")
+        r = TlcRun(wd, "MT.tla", "MT.cfg", env={"TRACE": tp}, name="mt", deque=True).run()
+        err = r.other_error()
+        if err:
+            log("TOOL-ERROR: " + err)
+            return 2
+        for row in read_ndjson(tp)[-6:]:
+            if row.get("c") == "step":
+                log("  %s:%s -> %s" % (row["e"]["t"], row["e"]["k"], " ".join(x["t"] + ":" + x["k"] for x in row["ev"])))
+        bad = r.printed("BAD")
+        if bad:
+            log("VIOLATION property=%s replay=%s clause=%s" % (prop, path, ",".join(sorted(parse_tla_value(bad[0])[2]))))
+            return 1
+        log("replay: no clause of %s is violated on this history with the current tree" % prop)
+        return 0
+    except ToolError as e:
+        log("TOOL-ERROR: " + str(e))
+        return 2
+
+
 def design_level(res, wd, prop, tier):
     """MapperSpecMC: the same predicates on the specification itself, at bounds beyond the tabulated ones (4 keys held, 8 keys)."""
     keys8 = F.KEYS7 + ["E"]
@@ -282,6 +399,8 @@ def check(prop, tier):
                     "states = TLC 'distinct states' summed over shards; traces_validated_against_impl = transitions on which the recorded "
                     "step result was compared with Mapper!Step; antecedent_transitions = transitions on which each clause's antecedent held",
         }
+        if not res.tool_errors:
+            res.coverage.update(deep_walks(res, exe, wd, prop, tier))
         if tier == "thorough" and prop in ("C01", "C02", "C19") and not res.violations and not res.tool_errors:
             res.coverage.update(design_level(res, wd, prop, tier))
         res.assumptions = ["bounded: at most maxheld (3, some 4) keys physically held, alphabets of 6-8 keys",
@@ -417,6 +536,8 @@ def check_c06(tier, replay_file=None):
 
 def replay(prop, path):
     rp = json.load(open(path))
+    if rp.get("engine") == "E1-mapper-walk":
+        return replay_walk(prop, path)
     try:
         exe = build_harness()
         wd = workdir("%s-replay" % prop)
